@@ -807,7 +807,11 @@ where
                     Ok(Some(Ev::Scalar { value, style, .. }))
                         if scalar_is_nullish(value, style) =>
                     {
-                        let _ = self.src.next();
+                        if let Err(e) = self.src.next() {
+                            // a deferred I/O error surfaced while skipping an empty document
+                            self.finished = true;
+                            return Some(Err(e));
+                        }
                         continue;
                     }
                     Ok(Some(_)) => {
@@ -824,7 +828,8 @@ where
                             Err(e) => {
                                 // After a deserialization error, skip remaining events in the
                                 // current document and try to recover at the next document boundary.
-                                if !self.src.skip_to_next_document() {
+                                // An I/O error (or input cap breach) ends the stream.
+                                if matches!(e, Error::IOError { .. }) || !self.src.skip_to_next_document() {
                                     self.finished = true;
                                 }
                                 return Some(Err(e));
@@ -1181,7 +1186,11 @@ where
                     Ok(Some(Ev::Scalar { value, style, .. }))
                         if scalar_is_nullish(value, style) =>
                     {
-                        let _ = self.src.next();
+                        if let Err(e) = self.src.next() {
+                            // a deferred I/O error surfaced while skipping an empty document
+                            self.finished = true;
+                            return Some(Err(e));
+                        }
                         continue;
                     }
                     Ok(Some(_)) => {
@@ -1198,7 +1207,8 @@ where
                             Err(e) => {
                                 // After a deserialization error, skip remaining events in the
                                 // current document and try to recover at the next document boundary.
-                                if !self.src.skip_to_next_document() {
+                                // An I/O error (or input cap breach) ends the stream.
+                                if matches!(e, Error::IOError { .. }) || !self.src.skip_to_next_document() {
                                     self.finished = true;
                                 }
                                 return Some(Err(e));
@@ -1909,7 +1919,11 @@ where
                     Ok(Some(Ev::Scalar { value, style, .. }))
                         if scalar_is_nullish(value, style) =>
                     {
-                        let _ = self.src.next();
+                        if let Err(e) = self.src.next() {
+                            // a deferred I/O error surfaced while skipping an empty document
+                            self.finished = true;
+                            return Some(Err(e));
+                        }
                         continue;
                     }
                     Ok(Some(_)) => {
@@ -1919,11 +1933,13 @@ where
                                 self.cfg,
                             ))
                         });
-                        if res.is_err() {
+                        if let Err(e) = &res {
                             // After a deserialization error, skip remaining events in the
                             // current document and try to recover at the next document boundary.
                             // If no next document is found, mark as finished.
-                            if !self.src.skip_to_next_document() {
+                            // An I/O error (or input cap breach) ends the stream: what follows
+                            // would be parsed from truncated input.
+                            if matches!(e, Error::IOError { .. }) || !self.src.skip_to_next_document() {
                                 self.finished = true;
                             }
                         }
